@@ -1521,7 +1521,7 @@ theorem forM_ok {α : Type} (f : α → Except String PUnit) (l : List α)
 the primary commit slot. -/
 structure ImageOk (img : ByteArray) (pageSize : Nat) (specs : List TableSpec) : Prop where
   ex : ∃ (h : Header) (slot : Slot) (um sm : List (Bytes × TableDef)) (p1 s1 p2 all : List PageNumber),
-    decodeHeader img = some h ∧ h.layout.pageSize = pageSize ∧ h.layout.fileLen = img.size ∧
+    decodeHeader img = some h ∧ h.layout.pageSize = pageSize ∧ h.layout.fileLen ≤ img.size ∧
     -- the primary commit slot: checksum and version
     SlotChecksumValid h.primary ∧ decodeSlot h.primary = some slot ∧ slot.version = 3 ∧
     -- data master tree and every user table named in it
